@@ -30,13 +30,13 @@ var attackerURLs = []string{
 }
 
 type C02Case struct {
-	Flow     string            `json:"flow"` // sso | logout | callback
-	SSO      SSOCase           `json:"sso"`
-	Channels []string          `json:"channels,omitempty"`
-	Logout   spsim.LogoutReq   `json:"logout"`
-	LogoutTr spsim.Transport   `json:"logout_transport"`
-	CBExtra  string            `json:"callback_extra,omitempty"`
-	CBMethod string            `json:"callback_method,omitempty"`
+	Flow     string             `json:"flow"` // sso | logout | callback
+	SSO      SSOCase            `json:"sso"`
+	Channels []string           `json:"channels,omitempty"`
+	Logout   spsim.LogoutReq    `json:"logout"`
+	LogoutTr spsim.Transport    `json:"logout_transport"`
+	CBExtra  string             `json:"callback_extra,omitempty"`
+	CBMethod string             `json:"callback_method,omitempty"`
 	Seed     *world.RequestSpec `json:"seed,omitempty"`
 }
 
